@@ -37,6 +37,11 @@ fn render_type(case: &Value) -> String {
 fn render(k: usize, case: &Value) -> String {
     let ty = render_type(case);
     if case["nested"].as_bool().unwrap() {
+        // among the outer types that make the layout "an anonymous component" the harness rotates: every third one also has a
+        // component whose type is an object-class field type -- the linker rebuilds such a definition, nested types included
+        if k % 3 == 1 {
+            return format!("Tx{k} ::= SEQUENCE {{ key VCLS.&id, inner {ty} }}");
+        }
         format!("Tx{k} ::= SEQUENCE {{ inner {ty} }}")
     } else {
         format!("Tx{k} ::= {ty}")
@@ -128,7 +133,7 @@ fn observe(k: usize, case: &Value, text: &str, o: &run::Outcome, krate: &rsproj:
             if t.name == name {
                 ev["ir_ext"] = json!(if nested {
                     match &t.ty {
-                        ASN1Type::Sequence(s) => s.members.first().map(|m| ir_ext(&m.ty)).unwrap_or(-3),
+                        ASN1Type::Sequence(s) => s.members.iter().find(|m| m.name == "inner").map(|m| ir_ext(&m.ty)).unwrap_or(-3),
                         _ => -3,
                     }
                 } else {
@@ -149,8 +154,9 @@ fn module(implied: bool, flip: bool, body: &str, tags: Option<&str>) -> String {
         Some(t) => format!("{t} TAGS "),
         None => "AUTOMATIC TAGS ".into(),
     };
+    let class = if body.contains("VCLS.&id") { "VCLS ::= CLASS { &id INTEGER UNIQUE, &Type }\n" } else { "" };
     format!(
-        "Ext{} DEFINITIONS {tags}{}::= BEGIN\n{body}\nEND\n",
+        "Ext{} DEFINITIONS {tags}{}::= BEGIN\n{class}{body}\nEND\n",
         if implied != flip { "Zz" } else { "Aa" },
         if implied { "EXTENSIBILITY IMPLIED " } else { "" }
     )
